@@ -622,3 +622,157 @@ def _execute(ex, c):
 @summary("log::max_level", "log::__private_api::enabled")
 def _log_level(ex, c):
     return bv_const(0, "usize")
+
+
+# ------------------------------------------------------------------ tokio::time::Instant (secs, nanos) / Duration arithmetic
+NANOS = 1_000_000_000
+
+
+def instant(secs, nanos):
+    return Adt("Instant", None, [BV(secs), BV(nanos)])
+
+
+def tlex_le(a, b):
+    return z3.Or(z3.ULT(a.fields[0].t, b.fields[0].t), z3.And(a.fields[0].t == b.fields[0].t, z3.ULE(a.fields[1].t, b.fields[1].t)))
+
+
+@summary("<Instant as PartialOrd>::ge")
+def _inst_ge(ex, c):
+    a, b = deref(ex, c.args[0]), deref(ex, c.args[1])
+    return Bool(tlex_le(b, a))
+
+
+@summary("<Instant as PartialOrd>::le")
+def _inst_le(ex, c):
+    a, b = deref(ex, c.args[0]), deref(ex, c.args[1])
+    return Bool(tlex_le(a, b))
+
+
+@summary("<Instant as PartialOrd>::gt")
+def _inst_gt(ex, c):
+    a, b = deref(ex, c.args[0]), deref(ex, c.args[1])
+    return Bool(z3.Not(tlex_le(a, b)))
+
+
+@summary("<Instant as PartialOrd>::lt")
+def _inst_lt(ex, c):
+    a, b = deref(ex, c.args[0]), deref(ex, c.args[1])
+    return Bool(z3.Not(tlex_le(b, a)))
+
+
+def time_add(a, d):
+    n = z3.ZeroExt(1, a.fields[1].t) + z3.ZeroExt(1, d.fields[1].t)
+    carry = z3.UGE(n, z3.BitVecVal(NANOS, 33))
+    secs = a.fields[0].t + d.fields[0].t + z3.If(carry, z3.BitVecVal(1, 64), z3.BitVecVal(0, 64))
+    nanos = z3.Extract(31, 0, z3.If(carry, n - z3.BitVecVal(NANOS, 33), n))
+    return secs, nanos
+
+
+@summary("<Instant as Add>::add")
+def _inst_add(ex, c):
+    a, d = c.args
+    secs, nanos = time_add(a, d)
+    return instant(secs, nanos)
+
+
+@summary("<Duration as Add>::add")
+def _dur_add(ex, c):
+    a, d = c.args
+    secs, nanos = time_add(a, d)
+    return duration(secs, nanos)
+
+
+@summary("<Instant as Sub>::sub", "Instant::duration_since", "Instant::saturating_duration_since")
+def _inst_sub(ex, c):
+    """Instant - Instant saturates to zero (std >= 1.60)"""
+    a, b = deref(ex, c.args[0]), deref(ex, c.args[1])
+    if isinstance(b, Adt) and b.ty == "Duration":
+        raise Unsupported("Instant - Duration")
+    neg = z3.Not(tlex_le(b, a))
+    borrow = z3.ULT(a.fields[1].t, b.fields[1].t)
+    secs = a.fields[0].t - b.fields[0].t - z3.If(borrow, z3.BitVecVal(1, 64), z3.BitVecVal(0, 64))
+    nanos = z3.If(borrow, a.fields[1].t + z3.BitVecVal(NANOS, 32) - b.fields[1].t, a.fields[1].t - b.fields[1].t)
+    return duration(z3.If(neg, z3.BitVecVal(0, 64), secs), z3.If(neg, z3.BitVecVal(0, 32), nanos))
+
+
+@summary("<Duration as PartialOrd>::gt")
+def _dur_gt(ex, c):
+    a, b = deref(ex, c.args[0]), deref(ex, c.args[1])
+    return Bool(z3.Not(dur_le(a, b)))
+
+
+@summary("<Duration as PartialOrd>::le")
+def _dur_le(ex, c):
+    a, b = deref(ex, c.args[0]), deref(ex, c.args[1])
+    return Bool(dur_le(a, b))
+
+
+# ------------------------------------------------------------------ logging / metrics (side effects outside every property)
+@summary("<Level as PartialOrd>::le")
+def _lvl_le(ex, c):
+    return Bool(False)      # logging disabled: the formatting code is never entered
+
+
+@summary("max_level", "log::max_level", "log::STATIC_MAX_LEVEL")
+def _max_level(ex, c):
+    return Opaque("LevelFilter")
+
+
+@summary("<DNS_CACHE as Deref>::deref", "<DNS_CACHE_SIZE as Deref>::deref", "MetricVec::with_label_values", "GenericCounter::inc",
+         "GenericGauge::set", "GenericCounter::inc_by")
+def _metric(ex, c):
+    return Opaque("metric")
+
+
+# ------------------------------------------------------------------ containers
+@summary("<* as Iterator>::chain")
+def _it_chain(ex, c):
+    a, b = c.args
+    return Opaque("Iter", items=list(a.items) + list(b.items))
+
+
+@summary("<* as Iterator>::min")
+def _it_min(ex, c):
+    items = c.args[0].items
+    if not items:
+        return NONE()
+    best = items[0]
+    for x in items[1:]:
+        best = pick(ex, le(ex, x, best), x, best)
+    return some(best)
+
+
+def deep(v):
+    """structural copy (Clone of plain data)"""
+    if isinstance(v, Adt):
+        return Adt(v.ty, v.variant, [deep(f) for f in v.fields], v.names)
+    if isinstance(v, Tup):
+        return Tup([deep(f) for f in v.items])
+    if isinstance(v, Seq):
+        return Seq([deep(f) for f in v.items], v.kind)
+    return v
+
+
+@summary("<* as Clone>::clone")
+def _clone(ex, c):
+    return deep(deref(ex, c.args[0]))
+
+
+@summary("<Domain as PartialEq>::eq")
+def _domain_eq(ex, c):
+    a, b = deref(ex, c.args[0]), deref(ex, c.args[1])
+    if len(a.fields) == 1 and isinstance(a.fields[0], BV):
+        return Bool(a.fields[0].t == b.fields[0].t)     # names abstracted to identities (equality only)
+    raise Unsupported("Domain equality on concrete label vectors")
+
+
+@summary("HashMap::get")
+def _hm_get(ex, c):
+    """map of bounded concrete size: entries = list of (key, Cell(value)); lookup by the crate's own PartialEq"""
+    m = deref(ex, c.args[0])
+    k = c.args[1]
+    for (sk, cell) in m.entries:
+        r = ex.do_call(f"<{m.key_ty} as PartialEq>::eq", [Ref(Cell(sk)), k], None, 0)
+        if ex.branch(r.t):
+            return some(Ref(cell))
+    return NONE()
